@@ -15,3 +15,14 @@ Qed.
 Check c13b_run_shortcut : forall e tys d,
   Run.construct_for_run e tys d = construct_arguments e tys d.
 Print Assumptions c13b_run_shortcut.
+
+(* op 44 (a complete payload followed by gigabytes of zero bytes) is evaluated on the complete payload alone:
+   trailing bytes are ignored (this is C13.c13_trailing at the instance the run uses) *)
+Theorem c13b_big_trailing : forall e tys d args n,
+  construct_arguments e tys d = Some args ->
+  construct_arguments e tys (d ++ repeat x00 n) = Some args.
+Proof. intros e tys d args n H. exact (construct_trailing e tys d args H (repeat x00 n)). Qed.
+Check c13b_big_trailing : forall e tys d args n,
+  construct_arguments e tys d = Some args ->
+  construct_arguments e tys (d ++ repeat x00 n) = Some args.
+Print Assumptions c13b_big_trailing.
